@@ -189,6 +189,16 @@ def run_cases(prop, lines, tag="cases", shards=16, limit_ms=10000):
     return res
 
 
+def alternatives_match(impl, spec):
+    a, b = impl.split(" ", 1), spec.split(" ", 1)
+    if a[0] != b[0] or len(a) != len(b):
+        return False
+    if len(a) == 1:
+        return True
+    ia, sb = a[1].split(","), b[1].split(",")
+    return len(ia) == len(sb) and all(x in y.split("|") for x, y in zip(ia, sb))
+
+
 def classify(r):
     """-> None (agree) | 'spec' (impl contradicts the property's own demand on an input inside the
     quantifier) | 'model' (impl differs from the model: correspondence broken) | 'note'"""
@@ -197,8 +207,15 @@ def classify(r):
     wf = r["wf"]
     if wf == "2":
         return None if r["impl"] == r["model"] else "note"
-    if wf == "1" and r["spec"] != "-" and r["impl"] != r["spec"]:
-        return "spec"
+    if wf == "1" and r["spec"] == "err":
+        # the property only demands *an* error here
+        if not r["impl"].startswith("err ") or r["impl"] == "err panic":
+            return "spec"
+    elif wf == "1" and r["spec"] != "-" and r["impl"] != r["spec"]:
+        if "|" in r["spec"] and alternatives_match(r["impl"], r["spec"]):
+            pass  # the specification admits several answers (a|b per comma-separated entry)
+        else:
+            return "spec"
     if r["impl"] != r["model"]:
         return "model"
     return None
